@@ -227,10 +227,19 @@ class CommitGraph:
 
         # Read chunks
         # Offsets in TOC are absolute from start of file
+        toc_end = f.tell()
+        file_size = f.seek(0, os.SEEK_END)
         for i in range(num_chunks):
             chunk_id, offset = toc_entries[i]
             next_offset = toc_entries[i + 1][1]
             chunk_size = next_offset - offset
+            # A damaged table of contents must not turn into a read of an
+            # absurd (or negative, i.e. unbounded) number of bytes.
+            if not toc_end <= offset <= next_offset <= file_size:
+                raise ValueError(
+                    f"Invalid commit graph chunk {chunk_id!r}: "
+                    f"offsets {offset}..{next_offset} outside the file"
+                )
 
             f.seek(offset)
             chunk_data = f.read(chunk_size)
